@@ -278,3 +278,48 @@ class ServerWorld:
     def full_metrics(self):
         r = self.get("/full-metrics", auth=False)
         return r.body if r.body is not None else {}
+
+    # ------------------------------------------------------------ deep state fingerprint
+    def _bptk_fp(self, b):
+        """repr-based (cheap): an untouched object graph has an identical repr; insertion
+        order is part of it, which is fine for "a refused request changes nothing"."""
+        fp = [repr(b.session_state), bool(b.is_locked()) if hasattr(b, "is_locked") else None,
+              getattr(b, "_sim_serial", None)]
+        for mname, mgr in b.scenario_manager_factory.scenario_managers.items():
+            for sname, sc in mgr.scenarios.items():
+                e = [mname, sname]
+                for attr in ("constants", "points", "starttime", "stoptime", "dt"):
+                    e.append(repr(getattr(sc, attr, None)))
+                model = getattr(sc, "model", None)
+                if model is not None:
+                    e.append(repr(model.points))
+                    e.append(repr(model.memo))
+                    e.append((model.starttime, model.stoptime, model.dt))
+                    vals = []
+                    for cname in sorted(getattr(model, "constants", {})):
+                        try:
+                            vals.append((cname, model.equations[cname](model.starttime)))
+                        except Exception as ex:
+                            vals.append((cname, "exc:" + type(ex).__name__))
+                    e.append(vals)
+                e.append(getattr(sc, "sd_simulation", None) is not None)
+                fp.append(e)
+        return fp
+
+    def fingerprint(self):
+        """Everything a refused request must leave untouched, as a dict of hashes."""
+        import hashlib
+
+        def h(x):
+            return hashlib.sha256(repr(x).encode()).hexdigest()
+        parts = {}
+        table = self.instance_table()
+        parts["instance_table"] = h([(k, str(d["time"]), d["timeout"], getattr(d["instance"], "_sim_serial", None))
+                                     for k, d in table.items()])
+        for k, d in table.items():
+            parts["instance:" + k] = h(self._bptk_fp(d["instance"]))
+        if self.app._bptk is not None:
+            parts["server_bptk"] = h(self._bptk_fp(self.app._bptk))
+        parts["external_state"] = h(sorted(self.fs.files.items()))
+        parts["objects"] = h([self.serial, self.uuid.n, sorted(self.destroys.items())])
+        return parts
